@@ -35,6 +35,8 @@ def gen_cases(tier, seed):
         mode = "file" if r.random() < 0.15 else "mem"
         out.append({"seed": s, "mode": mode, "n": r.randint(2, 12 if tier == "quick" else 22) if mode == "mem" else r.randint(2, 7),
                     "steps": r.randint(0, 5), "tier": tier})
+    for i in range(n // 6):
+        out.append({"seed": env.seed_for(seed, ID, tier, "siblings", i), "mode": "file", "siblings": True, "tier": tier})
     return out
 
 
